@@ -196,6 +196,57 @@ func scenarios(o *common.Opts) []*callsim.Scenario {
 			}
 		}
 	}
+	// several ServantProxy objects for the same object on one Communicator: they share the endpoint manager
+	// and its adapters (pending-reply tables, connections) but each has its own queueLen. Calls of the
+	// proxies overlap on the shared adapter in both orders (a slow / never answered call of one proxy
+	// overlapped by a quick call of another); every proxy's counter must be back at 0 after each wave and a
+	// burst of ObjQueueMax concurrent calls on every proxy must be admitted afterwards.
+	for _, np := range []int{2, 3} {
+		for _, withBurst := range []bool{true, false} {
+			if np == 3 && !withBurst && !o.Thorough() {
+				continue
+			}
+			const qmax = 3
+			cl := callsim.ClientConf{ObjQueueMax: qmax, WriteTimeoutMs: -1, DialTimeoutMs: 400, ProxyTimeoutMs: 300}
+			var calls []callsim.CallSpec
+			var rules []callsim.Rule
+			ord := 0
+			addCall := func(wave, delay, proxy int, mode string, serverDelay int, mustOK bool) {
+				calls = append(calls, callsim.CallSpec{Wave: wave, DelayMs: delay, Proxy: proxy, Timeout: "proxy", MustOK: mustOK})
+				if mode != "echo" {
+					rules = append(rules, callsim.Rule{From: ord, To: ord, Mode: mode, DelayMs: serverDelay})
+				}
+				ord++
+			}
+			wave := 0
+			for first := 0; first < np; first++ {
+				// proxy `first` waits for a slow reply while the others call and return
+				addCall(wave, 0, first, "delay", 220, true)
+				for k := 1; k < np; k++ {
+					addCall(wave, 60*k, (first+k)%np, "echo", 0, true)
+				}
+				wave++
+				// proxy `first` runs into its timeout while the others call and return
+				addCall(wave, 0, first, "silent", 0, false)
+				for k := 1; k < np; k++ {
+					addCall(wave, 60*k, (first+k)%np, "echo", 0, true)
+				}
+				wave++
+			}
+			name := fmt.Sprintf("proxies-%d", np)
+			if withBurst {
+				for pr := 0; pr < np; pr++ {
+					for k := 0; k < qmax; k++ {
+						calls = append(calls, callsim.CallSpec{Wave: wave, Proxy: pr, Timeout: "proxy", MustOK: true})
+					}
+				}
+				rules = append(rules, callsim.Rule{From: ord, To: ord + np*qmax - 1, Mode: "delay", DelayMs: 120})
+				name += "-burst"
+			}
+			add(&callsim.Scenario{Name: name, Class: "shared-adapter", Client: cl, Proxies: np,
+				Servers: []callsim.ServerSpec{{Kind: "normal", Rules: rules}}, Calls: calls, GapMs: 40, Record: !withBurst && np == 2})
+		}
+	}
 	// callers queue up behind the dial lock of an endpoint that does not answer the dial
 	{
 		cl := callsim.ClientConf{WriteTimeoutMs: -1, DialTimeoutMs: 500, ProxyTimeoutMs: 200}
@@ -420,8 +471,14 @@ func main() {
 			if r.Capped {
 				continue
 			}
-			if k.QueueLen != 0 {
-				viol("C09:leak:queueLen", fmt.Sprintf("after all callers of wave %d returned: queueLen=%d", k.AfterWave, k.QueueLen), k)
+			qls := k.QueueLens
+			if len(qls) == 0 {
+				qls = []int32{k.QueueLen}
+			}
+			for pk, q := range qls {
+				if q != 0 {
+					viol("C09:leak:queueLen", fmt.Sprintf("after all callers of wave %d returned: queueLen of ServantProxy #%d is %d (all proxies: %v)", k.AfterWave, pk, q, qls), k)
+				}
 			}
 			if k.Pending != 0 {
 				viol("C09:leak:resp-table", fmt.Sprintf("after all callers of wave %d returned: %d entries left in the pending-reply tables", k.AfterWave, k.Pending), k)
@@ -477,7 +534,7 @@ func main() {
 	}
 	res.Rule = "real client in child processes against fake servers: silent / late / slow / close after request / close on accept / garbage frame / garbage body / refuse / black hole / never reading, " +
 		"x timeout source (configured, per-call, context) x 1-8 concurrent callers; dispatch path (no filter, single client filter, middleware chain, pre+post filters) x timeout source x {silent, far too late} in full;  wall clock vs effective deadline + DialTimeout + 700 ms; counters through the verif export after every wave; " +
-		"a further call after a late reply; histories with <= 2 concurrent callers replayed through the LTS; non-trivial = every scenario"
+		"2-3 ServantProxy objects sharing one adapter with overlapping calls (per-proxy queueLen, burst of ObjQueueMax calls per proxy afterwards); a further call after a late reply; histories with <= 2 concurrent callers replayed through the LTS; non-trivial = every scenario"
 	if err := res.Write(o.Out); err != nil {
 		panic(err)
 	}
